@@ -278,6 +278,8 @@ func lgVariants(pw string) map[string]string {
 	r := []rune(pw)
 	m := map[string]string{
 		"empty": "", "ext": pw + "l", "pre": "s" + pw, "case": lgSwapCase(pw), "space": pw + " ",
+		// bcrypt's key schedule cycles over the password plus a NUL terminator
+		"nul-repeat": pw + "\x00" + pw, "nul": pw + "\x00",
 	}
 	if len(r) > 0 {
 		m["prefix"] = string(r[:len(r)-1])
